@@ -24,9 +24,20 @@
    observation of every complete schedule satisfies the predicate of C12_ConcSpec and agrees with the
    closed form the correspondence compares the implementation with.  PARTIAL there as for one
    execution: own directory, existing files under the variables, names unique per execution are
-   observed, not proved (the model numbers the path of file f of execution e 5e+f: uuid oracle). *)
+   observed, not proved (the model numbers the path of file f of execution e 5e+f: uuid oracle).
+   HOW THE HOOK WRITES ITS OUTPUTS (theorems C12_fs_... and C12_ways_...): the contract is by PATH.  A small file
+   system (names, inodes, symbolic links; write/append/rename/unlink/link/symlink) says what a reader
+   opening a name finds after ANY sequence of operations by the hook (C12_FsModel); the operator reads the
+   four outputs by path after the hook has exited and removes its five names.  Proved: the outcome is a
+   function of what is AT THE PATHS at exit (for all hook behaviours); for every way of writing (in place,
+   append only, scratch file renamed onto the path, removed and created again, through a second hard link,
+   a symbolic link put at the path), every split of the content into chunks and every order of the outputs
+   that content is the concatenation of the chunks, the execution is C12_Model.run on these contents, the temp
+   directory ends empty, and the predicate of C12_FsSpec (C12_Spec.P for the contents at exit) holds of the
+   model.  The patch file's YAML stays an oracle (any classification of byte strings into the four kinds). *)
 From Verif Require Import Common Json JsonText JsonText_Proofs C12_Model C12_Spec C12_Corr C12_Proofs.
 From Verif Require Import C12_ConcModel C12_ConcSpec C12_ConcProofs.
+From Verif Require Import C12_FsModel C12_FsSpec C12_FsProofs.
 Open Scope N_scope.
 
 (* all temporary files of an execution are deleted when it ends, whatever the outcome —
@@ -318,7 +329,152 @@ Theorem C12_conc_complete_schedules : forall ts,
 Proof. intros ts. split; [apply seq_sched_complete | apply complete_extends]. Qed.
 Print Assumptions C12_conc_complete_schedules.
 
+(* ---- how the hook writes its output files ---- *)
+
+(* one output, produced at the name p in any way but removal, in any chunks, in any well-formed file system in
+   which p names an empty file of its own and the scratch names are free: a reader opening p afterwards
+   finds the concatenation of the chunks; the scratch name beside p is free again *)
+Theorem C12_fs_way_content_at_path : forall w p st so cs s i,
+  w <> WRemove -> wf s -> dir s p = Some (NFile i) -> ino s i = [] -> dir s st = None -> dir s so = None ->
+  p <> st -> p <> so -> st <> so ->
+  read_path (run_ops (script w p st so cs) s) p = Some (concat cs) /\ dir (run_ops (script w p st so cs) s) st = None.
+Proof.
+  intros w p st so cs s i Hw W Hp He Hst Hso N1 N2 N3.
+  destruct (script_post w p st so cs s i Hw W Hp He Hst Hso N1 N2 N3) as ((j & HC & _) & S & _).
+  split; [exact (holds_content_read _ _ _ _ _ HC) | exact S].
+Qed.
+Print Assumptions C12_fs_way_content_at_path.
+
+(* several outputs (each file at most once), each in its way and its chunks, in ANY order, from the start
+   of an execution: at every one of the five paths a reader finds what [content_of] says - the chunks of
+   the job for that file, joined; nothing if the job removed it; the empty file if there is no job *)
+Theorem C12_ways_content_at_paths : forall js s g,
+  good_start s -> NoDup (job_files js) -> (forall x, In x (job_files js) -> x < 5) -> g < 5 ->
+  read_path (run_ops (jobs_ops js) s) g = content_of js g.
+Proof. exact jobs_content. Qed.
+Print Assumptions C12_ways_content_at_paths.
+
+(* the start the model builds (five os.WriteFile in an empty directory) and the start the text describes
+   (five names, five empty files) are the same file system, and both are good starts *)
+Theorem C12_fs_start_is_contract_start :
+  fs_equiv (create_all fs_empty) contract_start /\ good_start (create_all fs_empty) /\ good_start contract_start.
+Proof. split; [exact start_equiv | split; [exact good_start_created | exact good_start_contract]]. Qed.
+Print Assumptions C12_fs_start_is_contract_start.
+
+(* whatever the operator's own environment: outputs written through the four output variables reach the
+   files the contract names *)
+Theorem C12_ways_reach_contract_files : forall e vs, wf_jobs vs = true -> hook_jobs e vs = spec_jobs vs.
+Proof. exact hook_jobs_spec. Qed.
+Print Assumptions C12_ways_reach_contract_files.
+
+(* FOR ALL HOOK BEHAVIOURS (any operations on any names): the outcome of the execution is a function of
+   what a reader finds at the four output paths when the hook exits *)
+Theorem C12_fs_outcome_function_of_path_content : forall cls i i',
+  fi_exit i = fi_exit i' -> fi_concurrent i = fi_concurrent i' -> fi_namelen i = fi_namelen i' -> fi_env i = fi_env i' ->
+  (forall f, In f [file_metrics; file_patch; file_admission; file_conversion] ->
+             read_path (hook_fs i) f = read_path (hook_fs i') f) ->
+  tidy i -> tidy i' -> exec_fs cls i = exec_fs cls i'.
+Proof. exact outcome_function_of_path_content. Qed.
+Print Assumptions C12_fs_outcome_function_of_path_content.
+
+(* ... it is C12_Model.run on what is read back by path, so every theorem about [run] above applies *)
+Theorem C12_fs_exec_is_run_on_path_content : forall cls i, tidy i -> exec_fs cls i = run (read_back cls i).
+Proof. exact exec_fs_run. Qed.
+Print Assumptions C12_fs_exec_is_run_on_path_content.
+
+(* whatever the hook did to the file system (renamed, replaced, linked): the five names of the execution
+   are gone when it has ended *)
+Theorem C12_fs_own_files_removed : forall i f, In f own_files -> dir (remove_all (hook_fs i)) f = None.
+Proof. exact own_files_removed. Qed.
+Print Assumptions C12_fs_own_files_removed.
+
+(* every way of writing, every chunking, every order: the execution is [run] on the contents, the hook has
+   left nothing in the temp directory, and nothing is left of the execution's own files *)
+Theorem C12_ways_exec_closed_form : forall cls w, wf_jobs (wi_jobs w) = true ->
+  exec_fs cls (finput_of w) = run (closed_input cls w)
+  /\ tidy (finput_of w) /\ o_remaining (exec_fs cls (finput_of w)) = 0.
+Proof.
+  intros cls w H. split; [now apply ways_exec|]. split; [now apply ways_tidy|].
+  apply exec_fs_remaining. now apply ways_tidy.
+Qed.
+Print Assumptions C12_ways_exec_closed_form.
+
+(* the way does not matter: the same contents at the paths by other ways, other chunks, in another order,
+   under another environment of the operator give the same outcome *)
+Theorem C12_ways_irrelevant : forall cls w w',
+  wf_jobs (wi_jobs w) = true -> wf_jobs (wi_jobs w') = true ->
+  wi_exit w = wi_exit w' -> wi_namelen w = wi_namelen w' ->
+  (forall g, content_of (spec_jobs (wi_jobs w)) g = content_of (spec_jobs (wi_jobs w')) g) ->
+  exec_fs cls (finput_of w) = exec_fs cls (finput_of w').
+Proof. exact ways_irrelevant. Qed.
+Print Assumptions C12_ways_irrelevant.
+
+(* the predicate of C12_FsSpec (C12_Spec.P_logic for the contents at the paths at exit) holds of the model
+   for every tidy hook behaviour, every oracle for the patch file, every input ... *)
+Theorem C12_fs_model_P_logic : forall cls i o, tidy i -> P_fs_logic cls i (model_fs_obs cls i o) = true.
+Proof. exact model_P_fs_logic. Qed.
+Print Assumptions C12_fs_model_P_logic.
+
+(* ... in particular for every case of the ways class *)
+Theorem C12_ways_model_P_logic : forall cls w o, wf_jobs (wi_jobs w) = true ->
+  P_ways_logic cls w (model_fs_obs cls (finput_of w) o) = true.
+Proof. exact ways_P_logic. Qed.
+Print Assumptions C12_ways_model_P_logic.
+
+Theorem C12_fs_model_P_env : forall cls i o, P_env (model_fs_obs cls i o) = true.
+Proof. exact model_P_fs_env. Qed.
+Print Assumptions C12_fs_model_P_env.
+
 (* ---- non-vacuity ---- *)
+(* a hook that moves a valid patch (written to a scratch file in two steps) onto $KUBERNETES_PATCH_PATH,
+   appends its metrics in three steps, puts a symbolic link at $ADMISSION_RESPONSE_PATH and writes the
+   conversion response through a second hard link *)
+Definition ex_ways_metrics : bytes :=      (* {"name":"verif_c12_metric","set":1}\n *)
+  [123; 34; 110; 97; 109; 101; 34; 58; 34; 118; 101; 114; 105; 102; 95; 99; 49; 50; 95; 109; 101; 116; 114; 105; 99; 34; 44;
+   34; 115; 101; 116; 34; 58; 49; 125; 10].
+Definition ex_ways : winput :=
+  mkWI 0 false 0 [(var_patch, 7)]
+       [(WRename, var_patch, [firstn 40 patch_valid_bytes; skipn 40 patch_valid_bytes]);
+        (WAppend, var_metrics, [firstn 9 ex_ways_metrics; firstn 20 (skipn 9 ex_ways_metrics); skipn 29 ex_ways_metrics]);
+        (WSymlink, var_admission, [[123; 125]]);
+        (WHardLink, var_conversion, [[123]; [125]])].
+Definition ex_ways_obs (success patch_applied : bool) : observation :=
+  mkOb true true true true true true 5 (if success then 0 else 1) 0 true patch_applied false
+       [[(var_context, Some (Own file_context)); (var_metrics, Some (Own file_metrics)); (var_patch, Some (Own file_patch));
+         (var_admission, Some (Own file_admission)); (var_validating, Some (Own file_admission));
+         (var_conversion, Some (Own file_conversion))]] false.
+Example C12_ways_hyp_met :
+  wf_jobs (wi_jobs ex_ways) = true
+  /\ tidy (finput_of ex_ways)
+  /\ good_start (create_all fs_empty)
+  /\ NoDup (job_files (spec_jobs (wi_jobs ex_ways)))
+  (* what is at the paths at exit *)
+  /\ read_path (hook_fs (finput_of ex_ways)) file_patch = Some patch_valid_bytes
+  /\ read_path (hook_fs (finput_of ex_ways)) file_metrics = Some ex_ways_metrics
+  /\ read_path (hook_fs (finput_of ex_ways)) file_admission = Some [123; 125]
+  /\ read_path (hook_fs (finput_of ex_ways)) file_conversion = Some [123; 125]
+  (* the file created before the hook ran is NOT what is at the patch path any more: it is still empty *)
+  /\ read_inode_created (finput_of ex_ways) file_patch = Some []
+  /\ read_inode_created (finput_of ex_ways) file_conversion = Some [123; 125]
+  /\ exec_fs cls_patch (finput_of ex_ways) = mkOut true true 0 true false true
+  (* the predicate: success with the patch applied satisfies it; a success that drops the patch, or a failure, does not *)
+  /\ P_ways cls_patch ex_ways (ex_ways_obs true true) = true
+  /\ P_ways cls_patch ex_ways (ex_ways_obs true false) = false
+  /\ P_ways cls_patch ex_ways (ex_ways_obs false false) = false
+  (* a truncated patch moved onto the path must fail the execution *)
+  /\ P_ways cls_patch (mkWI 0 false 0 [] [(WRename, var_patch, [patch_truncated_bytes])]) (ex_ways_obs true false) = false
+  /\ agrees_ways ex_ways (ex_ways_obs true true) = true
+  (* a hook that removes the patch file: unreadable, the model fails the execution, the text does not decide *)
+  /\ exec_fs cls_patch (finput_of (mkWI 0 false 0 [] [(WRemove, var_patch, [])])) = mkOut true false 0 false false false
+  /\ exit_input cls_patch (spec_finput (mkWI 0 false 0 [] [(WRemove, var_patch, [])])) = None
+  (* an untidy hook (leaves a scratch file in the temp directory) is outside the hypothesis *)
+  /\ o_remaining (exec_fs cls_patch (mkFI 0 false 0 [] [OWrite 10 [1]])) = 1.
+Proof.
+  split; [reflexivity|]. split; [apply ways_tidy; reflexivity|]. split; [exact good_start_created|].
+  split; [apply spec_jobs_files; reflexivity|].
+  vm_compute. repeat split; reflexivity.
+Qed.
+
 (* the operator's environment holds METRICS_PATH twice, BINDING_CONTEXT_PATH and two unrelated variables *)
 Definition ex_env : list (N * N) := [(var_metrics, 7); (9, 1); (var_context, 3); (var_metrics, 8); (9, 2); (11, 5)].
 Example C12_env_hyp_met :
